@@ -261,9 +261,10 @@ type Kernel struct {
 	Fail func(r *Request) int
 	// UsageFor overrides the usage returned for a URR.
 	UsageFor func(op string, k RuleKey) Usage
-	// MultiMissing: errno returned by GET_MULTI_REPORTS when a queried URR does not exist (0: skip it)
-	counter uint64
-	wg      sync.WaitGroup
+	// QuietDel: DEL_URR of these rules is acknowledged without a usage report
+	QuietDel func(k RuleKey) bool
+	counter  uint64
+	wg       sync.WaitGroup
 	closed  atomic.Bool
 	KeepLog bool
 }
@@ -535,6 +536,9 @@ func (k *Kernel) apply(r *Request) (reply []byte, errno int) {
 			return nil, int(syscall.ENOENT)
 		}
 		delete(k.Rules, key)
+		if k.QuietDel != nil && k.QuietDel(key) {
+			return nil, 0
+		}
 		return genlReply(r.Seq, r.Cmd, EncodeUR(key.SEID, uint32(key.ID), k.usage("remove", key))), 0
 	case gtp5gnl.CMD_GET_REPORT:
 		if !exists {
